@@ -699,6 +699,10 @@ func Alphabet(g *Grammar, limit int, other rune) []rune {
 					add(it.Lo)
 					add(it.Hi)
 					second = append(second, it.Lo-1, it.Hi+1)
+					if it.Lo < 0xD800 && it.Hi > 0xDFFF {
+						// the range spans the surrogate block, which generators step over
+						second = append(second, 0xD7FF, 0xE000, 0xE001)
+					}
 					if e.CI {
 						second = append(second, unicode.ToUpper(it.Lo), unicode.ToLower(it.Lo), unicode.ToUpper(it.Hi), unicode.ToLower(it.Hi))
 					}
